@@ -17,10 +17,14 @@ Theorem C08_volume_str_counts : forall (k : Z) (v : volume),
 Proof. exact volume_str_counts. Qed.
 Print Assumptions C08_volume_str_counts.
 
-(* the writers: tables satisfying wf_state are written completely (no exception) as a
-   file satisfying every clause of the property *)
-Theorem C08_write_wf : forall (E : Type) (w : wstate E),
-  wf_state w -> exists f, write_file w = Complete f /\ wf_file f.
+(* the writers: tables satisfying wf_state are written as a file satisfying every clause
+   of the property; the only exception left is the ValueError of the repaired
+   writeT4BoundCond (two kinds of boundary condition on coincident surfaces), raised after
+   a well-formed file without BOUNDARY_CONDITION block has been written *)
+Theorem C08_write_wf : forall (E : Type) (ren : option (list (Z * Z))) (w : wstate E),
+  wf_state w ->
+  exists f, wf_file f /\
+    (write_file ren w = Complete f \/ exists e, write_file ren w = Raised f e /\ f_bc f = None).
 Proof. intros E. exact write_wf. Qed.
 Print Assumptions C08_write_wf.
 
@@ -28,9 +32,9 @@ Print Assumptions C08_write_wf.
    references closed and ESTABLISH "no surface on both sides", provided the union helper
    planes are still in the surface table afterwards (the guard the code does not check) *)
 Theorem C08_prune_preserves_wf :
-  forall (E : Type) (eeqb : E -> E -> bool) skip_dedup (surfs : stable E) vols u0 u1 surfs' vols',
+  forall (E : Type) (eeqb : E -> E -> bool) skip_dedup (surfs : stable E) vols u0 u1 surfs' vols' ren',
   refs_ok surfs vols -> u0 <> u1 -> helpers_survive eeqb skip_dedup surfs u0 u1 ->
-  prune eeqb skip_dedup surfs vols u0 u1 = Ok (surfs', vols') ->
+  prune eeqb skip_dedup surfs vols u0 u1 = Ok (surfs', vols', ren') ->
   refs_ok surfs' vols' /\ sides_ok vols'.
 Proof. intros E. exact (@prune_preserves_wf E). Qed.
 Print Assumptions C08_prune_preserves_wf.
@@ -66,7 +70,7 @@ Print Assumptions C08_wf_stateb_sound.
 (* #7 an operand that is not a number: INTE 1 None *)
 Theorem C08_none_operand_refuted :
   exists (w : wstate nat) f,
-    write_file w = Complete f /\ ~ wf_file f /\
+    write_file None w = Complete f /\ ~ wf_file f /\
     In "VOLU 14 EQUA MINUS 1 1 INTE 1 None ENDV // (10, 1)"%string (print_file f).
 Proof. exact none_operand_refuted. Qed.
 Print Assumptions C08_none_operand_refuted.
@@ -76,42 +80,57 @@ Theorem C08_helper_plane_refuted :
   exists (surfs : stable nat) vols u0 u1,
     refs_ok surfs vols /\ u0 <> u1 /\ In u0 (keys surfs) /\ In u1 (keys surfs) /\
     ~ helpers_survive Nat.eqb false surfs u0 u1 /\
-    (exists surfs' vols' sl,
-       prune Nat.eqb false surfs vols u0 u1 = Ok (surfs', vols') /\
-       write_file (w8 surfs' vols') = Died true sl EKey /\
+    (exists surfs' vols' ren' sl,
+       prune Nat.eqb false surfs vols u0 u1 = Ok (surfs', vols', ren') /\
+       write_file ren' (w8 surfs' vols') = Died true sl EKey /\
        print_outcome (Died true sl EKey) =
          (geometry_head ++ ["SURF 1 PLANEX 1.0"; "SURF 2 PLANEY 0.0"]%string)%list) /\
-    (exists surfs' vols' f,
-       prune Nat.eqb true surfs vols u0 u1 = Ok (surfs', vols') /\
-       write_file (w8 surfs' vols') = Complete f /\ wf_file f).
+    (exists surfs' vols' ren' f,
+       prune Nat.eqb true surfs vols u0 u1 = Ok (surfs', vols', ren') /\
+       write_file ren' (w8 surfs' vols') = Complete f /\ wf_file f).
 Proof. exact helper_plane_refuted. Qed.
 Print Assumptions C08_helper_plane_refuted.
 
 (* #16 GEOMCOMP names a composition that is not written *)
 Theorem C08_leading_zero_refuted :
   exists (w : wstate nat) f g c,
-    write_file w = Complete f /\ ~ wf_file f /\
+    write_file None w = Complete f /\ ~ wf_file f /\
     f_geomcomp f = Some g /\ map gc_name g = ["m01_-1.0"%string] /\
     f_comps f = Some c /\ map cb_name (snd c) = ["m1_-1.0"; "m0"]%string /\
     refs_ok (w_surfs w) (w_vols w) /\ sides_ok (w_vols w).
 Proof. exact leading_zero_refuted. Qed.
 Print Assumptions C08_leading_zero_refuted.
 
-(* a boundary condition on a surface the file does not define *)
-Theorem C08_bc_unwritten_surface_refuted :
-  exists (w : wstate nat) f,
-    write_file w = Complete f /\ ~ wf_file f /\
-    f_bc f = Some (1%N, [("REFLECTION"%string, 5%Z)]) /\ surf_ids f = [1%Z] /\
-    refs_ok (w_surfs w) (w_vols w) /\ sides_ok (w_vols w).
-Proof. exact bc_unwritten_surface_refuted. Qed.
-Print Assumptions C08_bc_unwritten_surface_refuted.
+(* boundary conditions (repaired writeT4BoundCond): for EVERY complete run of the writers —
+   no hypothesis on the tables, the renumbering or the flags — each listed surface is
+   defined in the file and listed once, and the declared count is the number of entries *)
+Theorem C08_bc_defined : forall (E : Type) (ren : option (list (Z * Z))) (w : wstate E) f,
+  write_file ren w = Complete f ->
+  match f_bc f with
+  | None => True
+  | Some b => wf_bc f b /\ NoDup (map snd (snd b))
+  end.
+Proof. intros E. exact bc_defined. Qed.
+Print Assumptions C08_bc_defined.
 
 (* ---- non-vacuity ------------------------------------------------------------------------ *)
 Example C08_example :
   refs_ok surfs_ex vols_ex /\ helpers_survive Nat.eqb false surfs_ex 7 8 /\
-  exists surfs' vols' f,
-    prune Nat.eqb false surfs_ex vols_ex 7 8 = Ok (surfs', vols') /\
+  exists surfs' vols' ren' f,
+    prune Nat.eqb false surfs_ex vols_ex 7 8 = Ok (surfs', vols', ren') /\
     wf_state (w_ex surfs' vols') /\
-    write_file (w_ex surfs' vols') = Complete f /\ wf_file f /\
+    write_file ren' (w_ex surfs' vols') = Complete f /\ wf_file f /\
+    f_bc f = Some (1%N, [("REFLECTION"%string, 2%Z)]) /\
     List.length (f_vols f) = 4%nat /\ surf_ids f = [1; 2; 3; 7; 8]%Z.
 Proof. exact example_pipeline. Qed.
+
+(* flagged surfaces: unused one dropped, merged one listed under the survivor's number,
+   conflicting kinds -> ValueError after a well-formed file without the block *)
+Example C08_bc_example :
+  exists f, write_file (Some [(1, 1); (2, 2); (3, 2); (5, 5)]%Z) w12 = Complete f /\ wf_file f /\
+            f_bc f = Some (1%N, [("REFLECTION"%string, 2%Z)]) /\ surf_ids f = [1; 2]%Z /\
+  exists f' , write_file (Some [(1, 1); (2, 2); (3, 2); (5, 5)]%Z)
+                (mkW (w_surfs w12) (w_vols w12) [] (w_cells w12) mat_h []
+                     [(2%Z, "*"%string); (3%Z, "+"%string)] false false false) = Raised f' EValue /\
+              wf_file f' /\ f_bc f' = None.
+Proof. exact bc_example. Qed.
